@@ -918,8 +918,12 @@ def _make_exprlike_fst(  # TODO: this needs a refactor, cleanup and simplificati
         ):  # veeery special case "3.__abs__()" -> "(3).__abs__()"
             return True
 
-        if not self._is_enclosed_in_parents(field) and not put_fst._is_enclosed_or_line(check_pars=adding):
-            return True
+        if not self._is_enclosed_in_parents(field):
+            if not put_fst._is_enclosed_or_line(check_pars=adding):
+                return True
+
+            if put_is_star and not adding and not put_ast.value.f._is_enclosed_or_line(check_pars=False):  # the pars in question belong to the value of the Starred and they may be what encloses a line break, `*(a +\n b)`
+                return True
 
         if put_ast.__class__ is Lambda:  # Lambda inside FormattedValue/Interpolation needs pars
             s = self
